@@ -22,7 +22,8 @@ Definition mirrorable (p : path) : bool := kind_rf p || kind_md p || kind_prop p
 Inductive method := MCopy | MMove | MLink.
 (* m_same_fs: shutil.move can rename (else copy + unlink); m_linkable: os.link works (else
    LinkWithFallback copies) *)
-Record mcfg := mkM { m_meth : method; m_same_fs : bool; m_linkable : bool }.
+(* m_drf / m_dmd: the include_drf / include_dmd options (which kinds are selected) *)
+Record mcfg := mkM { m_meth : method; m_same_fs : bool; m_linkable : bool; m_drf : bool; m_dmd : bool }.
 Inductive mode := Copy | Move | Link.
 
 Inductive dname := Fin (p : path) | Tmp (p : path).
@@ -138,12 +139,27 @@ Definition mirror_plan (mc : mcfg) (m : mode) (s : mst) (p : path) : list fop :=
 
 (* DigitalRFMirror.__init__: event_handlers in list order, each with what its regexes match *)
 Inductive hnd := HMirror (m : mode) | HRing.
-Definition handlers (mc : mcfg) : list (hnd * (path -> bool)) :=
+(* what the copy-like handler's regexes match: include_drf (only when RF is not moved), include_dmd,
+   include_drf_properties = include_drf, include_dmd_properties = include_dmd *)
+Definition copy_match (mc : mcfg) (with_rf : bool) (p : path) : bool :=
+  (with_rf && m_drf mc && kind_rf p) || (m_dmd mc && kind_md p) ||
+  (m_drf mc && (pg p =? -1)) || (m_dmd mc && (pg p =? -2)).
+Definition mirror_handlers (mc : mcfg) : list (hnd * (path -> bool)) :=
   match m_meth mc with
-  | MCopy => [(HMirror Copy, mirrorable)]
-  | MLink => [(HMirror Link, mirrorable)]
-  | MMove => [(HMirror Copy, fun p => kind_md p || kind_prop p); (HMirror Move, kind_rf); (HRing, kind_md)]
+  | MCopy => [(HMirror Copy, copy_match mc true)]
+  | MLink => [(HMirror Link, copy_match mc true)]
+  | MMove => (HMirror Copy, copy_match mc false) :: (if m_drf mc then [(HMirror Move, kind_rf)] else [])
   end.
+Definition ring_handlers (mc : mcfg) : list (hnd * (path -> bool)) :=
+  match m_meth mc with
+  | MMove => if m_dmd mc then [(HRing, kind_md)] else []
+  | _ => []
+  end.
+Definition handlers (mc : mcfg) : list (hnd * (path -> bool)) := mirror_handlers mc ++ ring_handlers mc.
+
+(* the files of the selected kinds *)
+Definition selected (mc : mcfg) (p : path) : bool :=
+  (m_drf mc && (kind_rf p || (pg p =? -1))) || (m_dmd mc && (kind_md p || (pg p =? -2))).
 
 Inductive mev :=
 | EWrite (p : path) (c : Z) | ERemove (p : path)
